@@ -35,7 +35,7 @@ T = {
     "MC_C01_q": dict(calls=3, flush=1, batch="TRUE"),
     "MC_C01_t": dict(calls=4, flush=1, cfgs="C_CfgsWide", batch="TRUE", one_in=50),
     "MC_C02_q": dict(calls=2, flush=2, reopen=2, cfgs="C_CfgsReopen"),
-    "MC_C02_t": dict(calls=3, flush=2, reopen=2, cfgs="C_CfgsReopen", one_in=100),
+    "MC_C02_t": dict(calls=3, flush=1, reopen=2, cfgs="C_CfgsReopen", one_in=100),
     "MC_C06_q": dict(calls=2, flush=1, reopen=1, rej="TRUE", batch="TRUE"),
     "MC_C06_t": dict(calls=3, flush=1, reopen=1, rej="TRUE", one_in=20),
     "MC_C10_q": dict(calls=3, flush=1, one_in=10, extra_inv="TailExact"),
@@ -43,7 +43,7 @@ T = {
     "MC_C09_q": dict(calls=3, flush=1, one_in=10, extra_inv="CorruptionReported MissingChunkReported"),
     "MC_C09_t": dict(calls=4, flush=1, one_in=100, cfgs="C_CfgsWide", extra_inv="CorruptionReported MissingChunkReported"),
     "MC_C11_q": dict(calls=3, flush=1, cfgs="C_CfgsWide", batch="TRUE", one_in=4),
-    "MC_C11_t": dict(calls=4, flush=1, cfgs="C_CfgsWide", batch="TRUE", one_in=100),
+    "MC_C11_t": dict(calls=4, flush=1, cfgs="C_Cfgs", batch="TRUE", one_in=100),
 }
 T.update({
     # concurrent instances (module MC_Conc)
